@@ -188,6 +188,10 @@ def generate(seed, tier):
         sc['meta']['family_kind'] = 'byzpeer'
         return sc
     ca, cb = sc['nodes']['A']['conf']['to-b'], sc['nodes']['B']['conf']['to-a']
+    if (family == 'plain' and r.random() < 0.35) or (family == 'mitm' and r.random() < 0.15):
+        # the responder always demands a cookie: the exchange that is authenticated is the one with the COOKIE in front
+        sc['controller_attrs'] = {'B': {'cookie_threshold': 0}}
+        sc['meta']['cookie_mode'] = True
     if family == 'mitm':
         msg = r.choice([1, 1, 2, 2, 3, 4])
         kind = r.choice(INIT_MUT) if msg <= 2 else r.choice(AUTH_MUT)
@@ -254,6 +258,7 @@ def run(scenario):
         class Deliveries:
             def before_delivery(self, node, data, src, dst, meta):
                 ctx['delivered'].setdefault(node.name, []).append(bytes(data))
+                ctx.setdefault('delivered_at', {}).setdefault(node.name, []).append((w.now, bytes(data)))
 
             def after_step(self, node, cause):
                 for sa in node.ike_sas():
@@ -412,6 +417,23 @@ def run(scenario):
                 return V('auth_over_octets_never_on_the_wire', {'role': role, 'message': 'response'},
                          f'{n} ({role}) established IKE_SA {e["spi_i"].hex()} having authenticated over an IKE_SA_INIT response of {len(e["res"])} '
                          f'octets that it never {"received" if e["initiator"] else "sent"}')
+        # ---- ... and, for the initiator, the request is the one its exchange completed with: the last IKE_SA_INIT request it sent for that SPI
+        #      before the response it authenticated over reached it (after a COOKIE / INVALID_KE_PAYLOAD retry: the retry)
+        for e in est:
+            if not e['initiator'] or not e['req'] or not e['res']:
+                continue
+            n = e['node']
+            t_res = next((t_ for (t_, d_) in ctx.get('delivered_at', {}).get(n, []) if d_ == e['res']), None)
+            if t_res is None:
+                continue
+            mine = [x for x in ctx['wire'].by_sender.get(n, []) if x['h'] is not None and x['h']['exch'] == 34 and not x['h']['R']
+                    and x['h']['spi_i'] == e['spi_i'] and x['t'] <= t_res]
+            reach['initiator_last_request_judged'] = reach.get('initiator_last_request_judged', 0) + 1
+            if mine and mine[-1]['data'] != e['req']:
+                return V('auth_over_a_request_the_exchange_did_not_complete_with', {'retries': len({x['data'] for x in mine}) - 1},
+                         f'{n} (initiator) established IKE_SA {e["spi_i"].hex()} having authenticated over an IKE_SA_INIT request of {len(e["req"])} octets, '
+                         f'but the request its exchange completed with - the last one it sent before the response arrived - has '
+                         f'{len(mine[-1]["data"])} octets (requests sent: {[len(x["data"]) for x in mine]})')
         # ---- whoever established agrees with itself: the KE values of the exchange it authenticated are in the DH group of the proposal it
         #      chose / was told (a forged INVALID_KE_PAYLOAD must end in the group the real responder selects, not in the one the forger named)
         for e in est:
